@@ -29,6 +29,8 @@ impl Manager {
             let mut cfg = Cfg::new(nodes.clone())?;
             NodeDirectionPass::run(&mut cfg)?;
             AvailableValuePass::run(&mut cfg)?;
+            #[cfg(feature = "verif-hooks")]
+            crate::verif_hooks::dispose(&cfg);
             cfg.get_names_of_interrupt_handler_functions()
         };
 
